@@ -1,9 +1,21 @@
 import ArimModel.Assembly
+import ArimProofs.C13
 import Mathlib.Algebra.Group.Basic
-/-! # C08 — model coefficients are assembled as Q_i * Q'_j * S(θ_i − a, θ_j − a) -/
+import Mathlib.Algebra.BigOperators.Group.Finset.Basic
+import Mathlib.Algebra.Field.Basic
+import Mathlib.Analysis.SpecialFunctions.Trigonometric.Sinc
+import Mathlib.Tactic.NormNum
+/-! # C08 — model coefficients are assembled as Q_i * Q'_j * S(θ_i − a, θ_j − a)
+
+1. ray weights: product of four switchable factors; one switch = one factor;
+2. amplitude formula; re-indexing the frame; rotating the scatterer;
+3. sensitivity: mean of the weighted amplitudes; independent of the chunk size;
+4. directivity law;
+5. non-vacuity examples. -/
 namespace Arim.C08
 open Arim.Assembly
 
+section seed
 variable {C : Type} [CommMonoid C]
 
 /-- **Switching a factor off replaces exactly that factor by one** (here: directivity) -/
@@ -32,4 +44,275 @@ theorem amp_depends_on_pair {K : Type} [Sub K] (S : K → K → C) (thTx thRx : 
     modelAmp S thTx thRx Q Q' a tx rx p k = modelAmp S thTx thRx Q Q' a tx' rx' p k' := by
   simp [modelAmp, h1, h2]
 
+end seed
+
+
+section weights
+variable {C : Type} [CommMonoid C]
+
+/-- **Weights are the product of the four switchable factors** -/
+theorem weights_product (sw : Switches) (d t b a : C) :
+    txWeight sw 1 d t b a =
+      (if sw.directivity then d else 1) * (if sw.transrefl then t else 1) *
+      (if sw.beamspread then b else 1) * (if sw.attenuation then a else 1) := rfl
+
+theorem rx_weights_product (sw : Switches) (d t b a sl : C) :
+    rxWeight sw 1 d t b a sl =
+      (if sw.directivity then d else 1) * (if sw.transrefl then t else 1) *
+      (if sw.beamspread then b else 1) * (if sw.attenuation then a else 1) * sl := rfl
+
+/-! switching ONE factor off: the weight no longer depends on that factor … -/
+theorem tx_directivity_off' (sw : Switches) (d d' t b a : C) :
+    txWeight {sw with directivity := false} 1 d t b a = txWeight {sw with directivity := false} 1 d' t b a := rfl
+theorem tx_transrefl_off (sw : Switches) (d t t' b a : C) :
+    txWeight {sw with transrefl := false} 1 d t b a = txWeight {sw with transrefl := false} 1 d t' b a := rfl
+theorem tx_beamspread_off (sw : Switches) (d t b b' a : C) :
+    txWeight {sw with beamspread := false} 1 d t b a = txWeight {sw with beamspread := false} 1 d t b' a := rfl
+theorem tx_attenuation_off (sw : Switches) (d t b a a' : C) :
+    txWeight {sw with attenuation := false} 1 d t b a = txWeight {sw with attenuation := false} 1 d t b a' := rfl
+
+/-! … and switching it on multiplies by exactly that factor -/
+theorem tx_directivity_on (sw : Switches) (d t b a : C) :
+    txWeight {sw with directivity := true} 1 d t b a = txWeight {sw with directivity := false} 1 d t b a * d := by
+  simp only [txWeight, pick, if_true, Bool.false_eq_true, if_false, one_mul]
+  simp only [mul_comm, mul_left_comm]
+theorem tx_transrefl_on (sw : Switches) (d t b a : C) :
+    txWeight {sw with transrefl := true} 1 d t b a = txWeight {sw with transrefl := false} 1 d t b a * t := by
+  simp only [txWeight, pick, if_true, Bool.false_eq_true, if_false, mul_one]
+  simp only [mul_comm, mul_left_comm]
+theorem tx_beamspread_on (sw : Switches) (d t b a : C) :
+    txWeight {sw with beamspread := true} 1 d t b a = txWeight {sw with beamspread := false} 1 d t b a * b := by
+  simp only [txWeight, pick, if_true, Bool.false_eq_true, if_false, mul_one]
+  simp only [mul_comm, mul_left_comm]
+theorem tx_attenuation_on (sw : Switches) (d t b a : C) :
+    txWeight {sw with attenuation := true} 1 d t b a = txWeight {sw with attenuation := false} 1 d t b a * a := by
+  simp only [txWeight, pick, if_true, Bool.false_eq_true, if_false, mul_one]
+
+
+/-- uniform statement: every factor enters the weight as `1` (off) or itself (on), e.g. for the beam spread
+    the weight is the weight without it times `pick`; the four of them at once -/
+theorem tx_factor_split (sw : Switches) (d t b a : C) :
+    txWeight sw 1 d t b a = txWeight {sw with directivity := false} 1 d t b a * pick sw.directivity d 1 ∧
+    txWeight sw 1 d t b a = txWeight {sw with transrefl := false} 1 d t b a * pick sw.transrefl t 1 ∧
+    txWeight sw 1 d t b a = txWeight {sw with beamspread := false} 1 d t b a * pick sw.beamspread b 1 ∧
+    txWeight sw 1 d t b a = txWeight {sw with attenuation := false} 1 d t b a * pick sw.attenuation a 1 := by
+  refine ⟨?_, ?_, ?_, ?_⟩ <;>
+    simp only [txWeight, pick, Bool.false_eq_true, if_false, one_mul, mul_one] <;>
+    simp only [mul_comm, mul_left_comm]
+
+/-! the same for the receive weight (with its trailing `√λ`) -/
+theorem rx_directivity_off (sw : Switches) (d d' t b a sl : C) :
+    rxWeight {sw with directivity := false} 1 d t b a sl = rxWeight {sw with directivity := false} 1 d' t b a sl := rfl
+theorem rx_transrefl_off (sw : Switches) (d t t' b a sl : C) :
+    rxWeight {sw with transrefl := false} 1 d t b a sl = rxWeight {sw with transrefl := false} 1 d t' b a sl := rfl
+theorem rx_beamspread_off (sw : Switches) (d t b b' a sl : C) :
+    rxWeight {sw with beamspread := false} 1 d t b a sl = rxWeight {sw with beamspread := false} 1 d t b' a sl := rfl
+theorem rx_attenuation_off (sw : Switches) (d t b a a' sl : C) :
+    rxWeight {sw with attenuation := false} 1 d t b a sl = rxWeight {sw with attenuation := false} 1 d t b a' sl := rfl
+
+theorem rx_directivity_on (sw : Switches) (d t b a sl : C) :
+    rxWeight {sw with directivity := true} 1 d t b a sl = rxWeight {sw with directivity := false} 1 d t b a sl * d := by
+  rw [rx_eq_tx_mul, rx_eq_tx_mul, tx_directivity_on, mul_right_comm]
+theorem rx_transrefl_on (sw : Switches) (d t b a sl : C) :
+    rxWeight {sw with transrefl := true} 1 d t b a sl = rxWeight {sw with transrefl := false} 1 d t b a sl * t := by
+  rw [rx_eq_tx_mul, rx_eq_tx_mul, tx_transrefl_on, mul_right_comm]
+theorem rx_beamspread_on (sw : Switches) (d t b a sl : C) :
+    rxWeight {sw with beamspread := true} 1 d t b a sl = rxWeight {sw with beamspread := false} 1 d t b a sl * b := by
+  rw [rx_eq_tx_mul, rx_eq_tx_mul, tx_beamspread_on, mul_right_comm]
+theorem rx_attenuation_on (sw : Switches) (d t b a sl : C) :
+    rxWeight {sw with attenuation := true} 1 d t b a sl = rxWeight {sw with attenuation := false} 1 d t b a sl * a := by
+  rw [rx_eq_tx_mul, rx_eq_tx_mul, tx_attenuation_on, mul_right_comm]
+
+end weights
+
+section amp
+variable {C : Type} [Mul C]
+
+/-- **Amplitude formula** `P_ij = S(θ_i − a, θ_j − a) · Q_i · Q'_j` -/
+theorem amp_formula {K : Type} [Sub K] (S : K → K → C) (thTx thRx : Nat → Nat → K) (Q Q' : Nat → Nat → C) (a : K)
+    (tx rx : Nat → Nat) (p k : Nat) :
+    modelAmp S thTx thRx Q Q' a tx rx p k =
+      S (thTx p (tx k) - a) (thRx p (rx k) - a) * Q p (tx k) * Q' p (rx k) := rfl
+
+/-- **Permuting (or in any way re-indexing) the frame re-indexes the amplitudes the same way** -/
+theorem amp_perm {K : Type} [Sub K] (S : K → K → C) (thTx thRx : Nat → Nat → K) (Q Q' : Nat → Nat → C) (a : K)
+    (tx rx : Nat → Nat) (σ : Nat → Nat) (p k : Nat) :
+    modelAmp S thTx thRx Q Q' a (tx ∘ σ) (rx ∘ σ) p k = modelAmp S thTx thRx Q Q' a tx rx p (σ k) := rfl
+
+/-- **Rotating the scatterer by `a`** is evaluating the scattering function at shifted angles -/
+theorem amp_rotation {K : Type} [SubtractionMonoid K] (S : K → K → C) (thTx thRx : Nat → Nat → K) (Q Q' : Nat → Nat → C)
+    (a : K) (tx rx : Nat → Nat) (p k : Nat) :
+    modelAmp S thTx thRx Q Q' a tx rx p k =
+      modelAmp (fun x y => S (x - a) (y - a)) thTx thRx Q Q' 0 tx rx p k := by
+  simp only [modelAmp, sub_zero]
+
+/-- two successive rotations compose additively -/
+theorem amp_rotation_add {K : Type} [AddCommGroup K] (S : K → K → C) (thTx thRx : Nat → Nat → K) (Q Q' : Nat → Nat → C)
+    (a b : K) (tx rx : Nat → Nat) (p k : Nat) :
+    modelAmp (fun x y => S (x - a) (y - a)) thTx thRx Q Q' b tx rx p k =
+      modelAmp S thTx thRx Q Q' (a + b) tx rx p k := by
+  simp only [modelAmp, sub_sub, add_comm a b]
+
+end amp
+
+section sens
+variable {C : Type}
+
+theorem foldl_range_eq_sum [AddCommMonoid C] (f : Nat → C) (N : Nat) :
+    (List.range N).foldl (fun acc k => acc + f k) 0 = ∑ k ∈ Finset.range N, f k := by
+  induction N with
+  | zero => simp
+  | succ n ih => rw [List.range_succ, List.foldl_append, ih, Finset.sum_range_succ]; rfl
+
+/-- **Sensitivity = mean of the weighted amplitudes** -/
+theorem sensitivity_eq_sum [Field C] (w : Nat → C) (P : Nat → Nat → C) (N p : Nat) :
+    sensitivityUniform 0 (fun x (n : Nat) => x / (n : C)) w P N p = (∑ k ∈ Finset.range N, w k * P p k) / (N : C) := by
+  unfold sensitivityUniform
+  rw [foldl_range_eq_sum (fun k => w k * P p k)]
+
+/-- the same for any division-by-count routine over a semiring -/
+theorem sensitivity_eq_sum' [NonUnitalNonAssocSemiring C] (divN : C → Nat → C) (w : Nat → C) (P : Nat → Nat → C) (N p : Nat) :
+    sensitivityUniform 0 divN w P N p = divN (∑ k ∈ Finset.range N, w k * P p k) N := by
+  unfold sensitivityUniform
+  rw [foldl_range_eq_sum (fun k => w k * P p k)]
+
+theorem filter_range_eq (n a : Nat) :
+    (List.range n).filter (fun c => decide (c = a)) = if a < n then [a] else [] := by
+  induction n with
+  | zero => simp
+  | succ n ih =>
+    rw [List.range_succ, List.filter_append, ih]
+    by_cases h1 : a < n
+    · have : n ≠ a := by omega
+      simp [h1, this]; omega
+    · by_cases h2 : a = n
+      · subst h2; simp
+      · have h3 : ¬ a < n + 1 := by omega
+        have : n ≠ a := by omega
+        simp [h1, h3, this]
+
+/-- the chunk test of the model is membership in the `c`-th slice of `chunk_array` -/
+theorem chunk_test_iff (block numpoints p c : Nat) (hb : 0 < block) (hp : p < numpoints) :
+    (decide (c * block ≤ p) && decide (p < min ((c + 1) * block) numpoints)) = decide (c = p / block) := by
+  have h := Arim.C13.chunk_partition numpoints block p c hb hp
+  unfold Arim.chunk Arim.owner at h
+  simp only at h
+  rw [Bool.eq_iff_iff]
+  simp only [Bool.and_eq_true, decide_eq_true_eq]
+  rw [← h]
+  have : min (c * block) numpoints ≤ p ↔ c * block ≤ p := by omega
+  rw [this]
+
+/-- **Exactly one chunk owns the point**: the list of chunks passing the test is `[p / block]` -/
+theorem owning_chunks (block numpoints p : Nat) (hb : 0 < block) (hp : p < numpoints) :
+    (List.range ((numpoints + block - 1) / block)).filter
+      (fun c => decide (c * block ≤ p) && decide (p < min ((c + 1) * block) numpoints)) = [p / block] := by
+  have : (fun c => decide (c * block ≤ p) && decide (p < min ((c + 1) * block) numpoints))
+      = (fun c => decide (c = p / block)) := by
+    funext c; exact chunk_test_iff block numpoints p c hb hp
+  rw [this, filter_range_eq]
+  have := Arim.C13.owner_lt numpoints block p hb hp
+  unfold Arim.owner Arim.numChunks Arim.ceilDiv at this
+  rw [if_pos this]
+
+variable [Mul C] [Add C]
+
+/-- **Chunk-size independence of the sensitivity** -/
+theorem sensitivity_chunk_indep (zero : C) (divN : C → Nat → C) (w : Nat → C) (P : Nat → Nat → C) (N : Nat)
+    (block numpoints p : Nat) (hb : 1 ≤ block) (hp : p < numpoints) :
+    sensitivityChunked zero divN w P N block numpoints p = some (sensitivityUniform zero divN w P N p) := by
+  unfold sensitivityChunked
+  simp only
+  rw [owning_chunks block numpoints p hb hp]
+  rfl
+
+/-- a point outside the grid is computed by no chunk -/
+theorem sensitivity_chunk_none (zero : C) (divN : C → Nat → C) (w : Nat → C) (P : Nat → Nat → C) (N : Nat)
+    (block numpoints p : Nat) (hp : numpoints ≤ p) :
+    sensitivityChunked zero divN w P N block numpoints p = none := by
+  unfold sensitivityChunked
+  simp only
+  have : (List.range ((numpoints + block - 1) / block)).filter
+      (fun c => decide (c * block ≤ p) && decide (p < min ((c + 1) * block) numpoints)) = [] := by
+    rw [List.filter_eq_nil_iff]
+    intro c _
+    simp only [Bool.and_eq_true, decide_eq_true_eq, not_and]
+    intro _
+    omega
+  rw [this]
+  rfl
+
+/-- two block sizes give the same sensitivity image -/
+theorem sensitivity_chunk_indep' (zero : C) (divN : C → Nat → C) (w : Nat → C) (P : Nat → Nat → C) (N : Nat)
+    (block block' numpoints p : Nat) (hb : 1 ≤ block) (hb' : 1 ≤ block') :
+    sensitivityChunked zero divN w P N block numpoints p = sensitivityChunked zero divN w P N block' numpoints p := by
+  by_cases hp : p < numpoints
+  · rw [sensitivity_chunk_indep _ _ _ _ _ _ _ _ hb hp, sensitivity_chunk_indep _ _ _ _ _ _ _ _ hb' hp]
+  · rw [sensitivity_chunk_none _ _ _ _ _ _ _ _ (by omega), sensitivity_chunk_none _ _ _ _ _ _ _ _ (by omega)]
+
+end sens
+
+section dir
+/-- **Directivity law** `sinc(a sinθ / λ)` -/
+theorem directivity_law {K : Type} [Mul K] [Div K] (sinc sin : K → K) (w θ lam : K) :
+    directivity sinc sin w θ lam = sinc ((w / lam) * sin θ) := rfl
+
+/-- at normal exit the directivity is one -/
+theorem directivity_normal {K : Type} [MulZeroClass K] [Div K] [One K] (sinc sin : K → K) (h0 : sin 0 = 0) (h1 : sinc 0 = 1)
+    (w lam : K) : directivity sinc sin w 0 lam = 1 := by
+  rw [directivity_law, h0, mul_zero, h1]
+
+theorem directivity_normal_real (sinc : ℝ → ℝ) (h1 : sinc 0 = 1) (w lam : ℝ) :
+    directivity sinc Real.sin w 0 lam = 1 :=
+  directivity_normal sinc Real.sin Real.sin_zero h1 w lam
+
+/-- with NumPy's normalised `sinc(x) = sin(πx)/(πx)` -/
+theorem directivity_normal_npsinc (w lam : ℝ) :
+    directivity (fun x => Real.sinc (Real.pi * x)) Real.sin w 0 lam = 1 :=
+  directivity_normal_real _ (by simp) w lam
+end dir
+
+
+/-! ## non-vacuity -/
+section examples
+
+example : txWeight (C := ℚ) ⟨true, false, true, true⟩ 1 2 3 5 7 = 2 * 5 * 7 := by
+  rw [weights_product]; norm_num
+example : rxWeight (C := ℚ) ⟨true, true, false, true⟩ 1 2 3 5 7 11 = 2 * 3 * 7 * 11 := by
+  rw [rx_weights_product]; norm_num
+example : txWeight (C := ℚ) ⟨true, true, true, true⟩ 1 2 3 5 7 = txWeight ⟨true, true, false, true⟩ 1 2 3 5 7 * 5 :=
+  tx_beamspread_on ⟨true, true, true, true⟩ 2 3 5 7
+
+/-- an HMC-like frame of 3 timetraces on 2 elements, reversed by `σ k = 2 - k` -/
+def exS : ℚ → ℚ → ℚ := fun x y => x + 2 * y
+def exThTx : Nat → Nat → ℚ := fun p i => p + i
+def exThRx : Nat → Nat → ℚ := fun p j => p * j
+def exQ : Nat → Nat → ℚ := fun _ i => i + 1
+def exQ' : Nat → Nat → ℚ := fun _ j => j + 2
+def exTx : Nat → Nat := fun k => [0, 0, 1].getD k 0
+def exRx : Nat → Nat := fun k => [0, 1, 1].getD k 0
+
+example : modelAmp exS exThTx exThRx exQ exQ' 1 (exTx ∘ (fun k => 2 - k)) (exRx ∘ (fun k => 2 - k)) 3 0 =
+    modelAmp exS exThTx exThRx exQ exQ' 1 exTx exRx 3 2 := amp_perm _ _ _ _ _ _ _ _ _ _ _
+/-- timetrace 2 is the pair (1,1): `S(3+1−1, 3·1−1) · Q[3,1] · Q'[3,1] = (3 + 2·2) · 2 · 3 = 42` -/
+example : modelAmp exS exThTx exThRx exQ exQ' 1 exTx exRx 3 2 = 42 := by
+  rw [amp_formula]; norm_num [exS, exThTx, exThRx, exQ, exQ', exTx, exRx]
+example : modelAmp exS exThTx exThRx exQ exQ' 1 exTx exRx 3 2 =
+    modelAmp (fun x y => exS (x - 1) (y - 1)) exThTx exThRx exQ exQ' 0 exTx exRx 3 2 := amp_rotation _ _ _ _ _ _ _ _ _ _
+
+example : sensitivityUniform (C := ℚ) 0 (fun x (n : Nat) => x / (n : ℚ)) (fun _ => 2) (fun p k => p + k) 3 1 = 4 := by
+  rw [sensitivity_eq_sum]; simp [Finset.sum_range_succ]; norm_num
+
+/-- 7 points in blocks of 3 (chunks `[0,3) [3,6) [6,7)`): point 6 is computed, by the last, partial chunk -/
+example : sensitivityChunked (C := ℚ) 0 (fun x (n : Nat) => x / (n : ℚ)) (fun _ => 2) (fun p k => p + k) 3 3 7 6 =
+    some (sensitivityUniform 0 (fun x (n : Nat) => x / (n : ℚ)) (fun _ => 2) (fun p k => p + k) 3 6) :=
+  sensitivity_chunk_indep _ _ _ _ _ _ _ _ (by decide) (by decide)
+example : (List.range ((7 + 3 - 1) / 3)).filter
+      (fun c => decide (c * 3 ≤ 6) && decide (6 < min ((c + 1) * 3) 7)) = [2] := by decide
+example : sensitivityChunked (C := ℚ) 0 (fun x (n : Nat) => x / (n : ℚ)) (fun _ => 2) (fun p k => p + k) 3 3 7 7 = none :=
+  sensitivity_chunk_none _ _ _ _ _ _ _ _ (by decide)
+
+example : directivity (fun x => Real.sinc (Real.pi * x)) Real.sin 0.5 0 1.2 = 1 := directivity_normal_npsinc _ _
+
+end examples
 end Arim.C08
